@@ -54,6 +54,19 @@ for line in sys.stdin:
 				for other in (y, b, tb_):
 					out += ' %d%d%d%d' % (x == other, x != other, x < other, x > other)
 			print(out)
+		elif parts[0] == 'h':
+			# the text as the value of each date-carrying header field: the instant the element stands for
+			from httoop import Headers
+			text = bytes.fromhex(parts[1])
+			out = []
+			for n in ('Last-Modified', 'If-Modified-Since', 'If-Unmodified-Since'):
+				try:
+					h = Headers()
+					h.parse(n.encode() + b': ' + text)
+					out.append('%d' % int(h.element(n)))
+				except Exception as e:
+					out.append('err:%s' % name(e))
+			print(' '.join(out))
 		else:
 			print('bad-op')
 	except Exception as e:
